@@ -151,11 +151,14 @@ class Ctx:
         # a run that has already found this many failing inputs which no open known finding explains stops exploring:
         # the verdict cannot change any more, and code that is broken badly enough can make the rest of the run
         # arbitrarily slow (quadratic blow-ups, hangs)
-        if len(self.violations) % 256 == 0:
-            known = [e for e in load_known(self.pid) if e.get("status") == "open"]
-            fresh = sum(1 for v in self.violations if not any(sig_matches(k["signature"], v["signature"]) for k in known))
-            if fresh >= VIOLATION_CAP:
-                self.notes.append(f"exploration stopped after {len(self.violations)} violations ({fresh} not covered by an open known finding)")
+        if not hasattr(self, "_open_known"):
+            self._open_known = [e for e in load_known(self.pid) if e.get("status") == "open"]
+            self._fresh = 0
+        v = self.violations[-1]
+        if not any(sig_matches(k["signature"], v["signature"]) for k in self._open_known):
+            self._fresh += 1
+            if self._fresh >= VIOLATION_CAP:
+                self.notes.append(f"exploration stopped after {len(self.violations)} violations ({self._fresh} not covered by an open known finding)")
                 raise EnoughViolations()
 
     def obligation(self, name, ok, detail=""):
